@@ -175,6 +175,12 @@ def run(R):
                 normal |= jf.reachable_from(nt_)
             ret_blocks = set(i for i, st in jf.stmts() if i in normal and st["k"] == "assign" and st["pl"]["l"] == 0 and not st["pl"]["p"])
             same_end, badb = PR.all_paths_hit(jf, g[2], ret_blocks) if ret_blocks else (True, None)
+            if not same_end:
+                # value-sensitive reachability: `Ok(())` of an inlined helper followed by `?` only takes the Continue edge
+                fr = PR.flag_reach(jf, g[2], avoid=ret_blocks)
+                if fr is not None:
+                    ex_ = sorted(set(jf.exits()) & set(fr))
+                    same_end, badb = (not ex_), (ex_[0] if ex_ else None)
             if [x for x in L.consuming_calls(jf) if x.bb in after]:
                 R.violation("C19.join", "JoinedTableData::execute|continues", "after an interrupt the joined file keeps being read", [loads[0].loc()])
                 ok = True
